@@ -393,8 +393,17 @@ def r7(ctx: Ctx) -> None:
             and src(parent(n).targets[0]) == 'month_key']
     ctx.check(lits == ['%Y-%m'], 'C10.R7', an, 'key:analyzer-month', 'analyzer month key is %Y-%m', f'analyzer month key {lits}')
     gm = ec.methods['get_months']
-    rets = [src(r.value) for r in ast.walk(gm.node) if isinstance(r, ast.Return)]
-    ctx.check(rets == ['len(months) if months else 1'], 'C10.R7', gm, 'months-count', 'months = number of distinct month keys', f'get_months returns {rets}')
+    # months = len(<set of month keys>), 1 when there is none - whether spelled `len(m) if m else 1` or `if not m: return 1` / `return len(m)`
+    mfl = get_flow(proj, gm)
+    pairs = []          # (returned value text, the truth of `months` under which it is returned / None)
+    for r in [x for x in mfl.cfg.stmts() if isinstance(x, ast.Return) and x.value is not None]:
+        if isinstance(r.value, ast.IfExp) and isinstance(r.value.test, ast.Name):
+            pairs += [(src(r.value.body), True), (src(r.value.orelse), False)]
+        else:
+            g_ = dict(mfl.cfg.guard_literals(r))
+            pairs.append((src(r.value), g_.get('months')))
+    ok = sorted(pairs, key=repr) == sorted([('len(months)', True), ('1', False)], key=repr)
+    ctx.check(ok, 'C10.R7', gm, 'months-count', 'months = number of distinct month keys', f'get_months returns {pairs}')
     gt = ec.methods['get_total']
     rets = [src(r.value) for r in ast.walk(gt.node) if isinstance(r, ast.Return)]
     ctx.check(rets == ['sum(self.get_payments())'], 'C10.R7', gt, 'total', 'total = sum of the payments', f'get_total returns {rets}')
